@@ -520,6 +520,48 @@ theorem default_key_monotone_on_ints (a b : Int) (h : a ≤ b) :
   simp only [Dy.lt, Nat.pow_zero, Int.mul_one]
   omega
 
+/-- the harness sends `float('inf')` / `float('-inf')` priorities to the driver as `+-2^1100`.  That value
+    lies strictly beyond the effective priority of EVERY other legal argument - `None`, bools, ints that
+    `float()` accepts (`|n| < 2^1024`), finite doubles (`|m / 2^e| < 2^1024`) - so it orders a history's
+    priorities exactly as the infinities do, and by `priorities_matter_only_by_order` the return values are
+    those of the real infinities -/
+theorem inf_standin_dominates :
+    (∀ n : Int, n.natAbs < 2 ^ 1024 →
+      Dy.lt (PyPrio.int n).eff ⟨2 ^ 1100, 0⟩ ∧ Dy.lt ⟨-(2 ^ 1100), 0⟩ (PyPrio.int n).eff) ∧
+    (∀ (m : Int) (e : Nat), m.natAbs < 2 ^ 1024 * 2 ^ e →
+      Dy.lt (PyPrio.float m e).eff ⟨2 ^ 1100, 0⟩ ∧ Dy.lt ⟨-(2 ^ 1100), 0⟩ (PyPrio.float m e).eff) ∧
+    (∀ p : PyPrio, p = .none ∨ (∃ b, p = .bool b) →
+      Dy.lt p.eff ⟨2 ^ 1100, 0⟩ ∧ Dy.lt ⟨-(2 ^ 1100), 0⟩ p.eff) := by
+  refine ⟨?_, ?_, ?_⟩
+  · intro n hn
+    have key : (PyPrio.int n).eff = ⟨roundInt53 n, 0⟩ := by
+      by_cases hz : n = 0
+      · subst hz; decide
+      · simp [PyPrio.eff, PyPrio.or0, PyPrio.truthy, PyPrio.toFloat, hz]
+    obtain ⟨h1, h2⟩ := roundInt53_abs_le n hn
+    rw [key]
+    simp only [Dy.lt, Nat.pow_zero, Int.mul_one]
+    constructor <;> omega
+  · intro m e hm
+    have key : (PyPrio.float m e).eff = ⟨m, e⟩ ∨ ((PyPrio.float m e).eff = ⟨0, 0⟩ ∧ m = 0) := by
+      by_cases hz : m = 0
+      · have r0 : roundInt53 0 = 0 := by decide +kernel
+        right; subst hz; simp [PyPrio.eff, PyPrio.or0, PyPrio.truthy, PyPrio.toFloat, r0]
+      · left; simp [PyPrio.eff, PyPrio.or0, PyPrio.truthy, PyPrio.toFloat, hz]
+    have hpos : (0 : Int) < 2 ^ e := Int.pow_pos (by omega)
+    have hlt : (2 : Int) ^ 1024 * 2 ^ e < 2 ^ 1100 * 2 ^ e :=
+      Int.mul_lt_mul_of_pos_right (by decide +kernel) hpos
+    have hm' : ((m.natAbs : Nat) : Int) < 2 ^ 1024 * 2 ^ e := by exact_mod_cast hm
+    rcases key with key | ⟨key, _⟩
+    · rw [key]
+      simp only [Dy.lt, Nat.pow_zero, Int.mul_one]
+      constructor <;> omega
+    · rw [key]; decide +kernel
+  · intro p hp
+    rcases hp with rfl | ⟨b, rfl⟩
+    · decide +kernel
+    · cases b <;> decide +kernel
+
 /-- the conversion itself, on naturals and on ints -/
 theorem int_to_float_rounding_monotone :
     (∀ n m : Nat, n ≤ m → roundNat53 n ≤ roundNat53 m) ∧
@@ -637,6 +679,10 @@ def exRaw : List (ROp Nat Dy) :=
 example : maxExp exRaw = 1 := by decide
 example : (PQ.run (sortedBackend (fun _ => 2)) (normalize exRaw)).2.drop 6 =
     [.task 5, .task 6, .task 3, .task 4, .task 2, .task 1] := by decide +kernel
+/-- the largest finite double (2^53 - 1) * 2^971 meets the hypothesis of `inf_standin_dominates` -/
+example : (((2 ^ 53 - 1) * 2 ^ 971 : Int)).natAbs < 2 ^ 1024 * 2 ^ 0 ∧
+    Dy.lt (PyPrio.float ((2 ^ 53 - 1) * 2 ^ 971) 0).eff ⟨2 ^ 1100, 0⟩ := by decide +kernel
+
 /-- three consecutive ints beyond 2^53: the first two collapse, the order is kept -/
 example : (PyPrio.int (2 ^ 53 + 1)).eff = (PyPrio.int (2 ^ 53)).eff ∧
     Dy.lt (PyPrio.int (2 ^ 53 + 1)).eff (PyPrio.int (2 ^ 53 + 2)).eff := by decide +kernel
